@@ -320,3 +320,38 @@ Proof.
   exists {| f_class := 0; f_neg := false; f_m := 5059597824406999; f_e := -52 |}.
   vm_compute. repeat split.
 Qed.
+
+(* ---------- the decimal printer against the specification's reader ----------
+
+   SpecApi writes expected ids, versions, limits with the model's printer [dec]; these lemmas
+   characterise that printer by the independent reader of Text.v ([read_decimal], [split_on]):
+   the text of a number denotes that number, and a comma-joined list splits back. *)
+
+Lemma dec_reads_back z : read_decimal (dec z) = Some (z <? 0, Z.abs z, 0%nat).
+Proof.
+  assert (Hbody : forall neg n, 0 <= n -> read_body neg (udec n) = Some (neg, n, 0%nat)).
+  { intros neg n Hn. unfold read_body.
+    rewrite (cut_at_none "." (udec n)) by (apply udec_all; [exact nodot_on_digits|exact Hn]).
+    rewrite (udec_all is_digit n is_digit_on_digits Hn). cbn [forallb andb negb].
+    destruct (udec n) eqn:Eu; [exfalso; exact (udec_nonempty _ Eu)|].
+    rewrite <- Eu, app_nil_r, (udec_value n Hn). reflexivity. }
+  unfold dec, read_decimal. destruct (Z.ltb_spec z 0) as [Hneg|Hpos].
+  - cbn [strip_minus]. rewrite Ascii.eqb_refl. rewrite Hbody by lia. f_equal. f_equal. f_equal. lia.
+  - pose proof (head_digit_not_minus (udec z) (udec_nonempty z)
+                  (udec_all is_digit z is_digit_on_digits Hpos) []) as Hs.
+    rewrite app_nil_r in Hs. rewrite Hs, Hbody by lia. f_equal. f_equal. f_equal. lia.
+Qed.
+
+Lemma nocomma_dec z : nochar "," (dec z) = true.
+Proof. apply dec_all; [exact nocomma_on_digits|reflexivity]. Qed.
+
+Lemma ids_split_back ids : ids <> [] ->
+  split_on "," (join (lit ",") (map dec ids)) = map dec ids.
+Proof.
+  induction ids as [|a ids IH]; intros Hne; [congruence|].
+  destruct ids as [|b ids].
+  - cbn [map join]. apply split_on_none, nocomma_dec.
+  - change (join (lit ",") (map dec (a :: b :: ids)))
+      with (dec a ++ ","%char :: join (lit ",") (map dec (b :: ids))).
+    rewrite (split_on_app _ _ _ (nocomma_dec a)), IH by discriminate. reflexivity.
+Qed.
